@@ -65,7 +65,10 @@ def fix_N(ops, sp, N, r, cfg):
 
 
 class World12:
-    def __init__(self, probe_seed):
+    def __init__(self, probe_seed, pristine=False):
+        from .hist import PristineRef
+
+        self.pristine = PristineRef() if pristine else None  # forked before this process touches rockit
         self.probe_seed = probe_seed
         self.seam = S.SolverSeam(probe_seed)
         self.seam.keep_fun = True
@@ -361,6 +364,16 @@ class World12:
         self.stats["checks_equal"] += 1
         if S.digest(rec) == S.digest(recF):
             self.stats["bit_equal"] += 1
+        if self.pristine is not None:
+            recP, perr = self.pristine.record(program(a.spec), self.probe_seed)
+            if recP is None:
+                self.probe("pristine_reference_failed")
+            else:
+                d = S.compare(rec, recP, fields=("size", "f", "g", "bounds", "x0", "p"))
+                if d:
+                    raise Violation("differs-from-pristine-process:" + d[0], "the multi-stage NLP differs from the same content declared directly in a "
+                                    "process that never ran rockit before: " + d[1])
+                self.probe("pristine_reference_equal")
         self.log.append(["check", S.digest(rec)])
         self.check_templates()
         self.check_catalog()
@@ -672,6 +685,8 @@ def edit_ops(r, cfg, sp, nm):
 # engine interface
 # ----------------------------------------------------------------------------------------------
 def _finish(w, steps, result):
+    if w.pristine is not None:
+        w.pristine.close()
     result["log_digest"] = hashlib.sha256(json.dumps(w.log, sort_keys=True, default=str).encode()).hexdigest()[:16]
     result["steps"] = steps
     result["nsteps"] = len(steps)
@@ -688,7 +703,7 @@ def _finish(w, steps, result):
 def run_seed(seed, restarts=False):
     r = random.Random(seed)
     probe_seed = r.randrange(1 << 30)
-    w = World12(probe_seed)
+    w = World12(probe_seed, pristine=random.Random(seed ^ 0x5EED).random() < 0.3)
     steps = []
     result = {"prop": "C18" if restarts else "C12", "seed": seed, "probe_seed": probe_seed, "verdict": "ok"}
 
@@ -708,7 +723,7 @@ def run_seed(seed, restarts=False):
 
 
 def run_steps(steps, probe_seed):
-    w = World12(probe_seed)
+    w = World12(probe_seed, pristine=True)
     result = {"prop": "C12", "probe_seed": probe_seed, "verdict": "ok"}
     try:
         for i, s in enumerate(steps):
